@@ -6,16 +6,23 @@ exception the script can catch. -/
 
 namespace GN.Driver.C09
 
+def one (r : String) : Option String :=
+  if r == "ok" then none
+  else if r.startsWith "throw:" then
+    -- a catchable exception; a thrown value that is not an Error object would be reported as throw:nonError
+    if r == "throw:nonError" then some "the_library_threw_a_value_that_is_not_an_Error" else none
+  else some r
+
+/-- a case is a session of calls; every call must return or throw a catchable Error -/
 def handle (toks : List String) : String :=
   let (inp, out) := toks.span (· != "=>")
-  match inp.length, out.drop 1 with
-  | 3, [r] =>
-    if r == "ok" then "OK"
-    else if r.startsWith "throw:" then
-      -- a catchable exception; a thrown value that is not an Error object would be reported as throw:nonError
-      if r == "throw:nonError" then "SPECFAIL the_library_threw_a_value_that_is_not_an_Error" else "OK"
-    else "SPECFAIL " ++ r
-  | 3, r :: rest => "SPECFAIL " ++ "_".intercalate (r :: rest)
-  | _, _ => "BADLINE shape"
+  let res := out.drop 1
+  if inp.length != 1 || res.isEmpty then "BADLINE shape"
+  else
+    let steps := (inp.headD "").splitOn ";"
+    -- a crash report takes the rest of the line
+    match res.findIdx? (fun r => (one r).isSome) with
+    | some i => "SPECFAIL step_" ++ toString i ++ "_" ++ (steps.getD i "?") ++ "_" ++ "_".intercalate (res.drop i)
+    | none => if res.length == steps.length then "OK" else "BADLINE arity"
 
 end GN.Driver.C09
